@@ -543,6 +543,7 @@ func c13World1(run *evid.Run, env *runEnv, widx, nPods int) {
 		}
 		if err != nil || !okNode {
 			run.Count("pods_bind_or_filter_failed", 1)
+			run.Count("unbound_reason_filter_"+reasonClass(fmt.Sprint(err)+" "+failed[p.Node], len(p.Requests) == 0), 1)
 			run.Sample(map[string]interface{}{"filter_failed": p, "err": fmt.Sprint(err), "failed_nodes": failed, "config": w.ConfText})
 			continue
 		}
@@ -550,6 +551,7 @@ func c13World1(run *evid.Run, env *runEnv, widx, nPods int) {
 		if err := plugin.Bind(&schedulerapi.ExtenderBindingArgs{PodName: p.Name, PodNamespace: p.NS, PodUID: obj.UID,
 			Node: p.Node}); err != nil {
 			run.Count("pods_bind_or_filter_failed", 1)
+			run.Count("unbound_reason_bind_"+reasonClass(err.Error(), len(p.Requests) == 0), 1)
 			run.Sample(map[string]interface{}{"bind_failed": p, "err": err.Error(), "config": w.ConfText})
 			continue
 		}
@@ -804,4 +806,30 @@ func sameIPSet(a, b []expIP) bool {
 func c13Violate(run *evid.Run, v evid.Violation) {
 	run.Count("viol_"+v.Sig, 1)
 	violateCapped(run, v, 8)
+}
+
+// reasonClass condenses an IPAM refusal into a counter name.
+func reasonClass(msg string, unranged bool) string {
+	kind := "ranged"
+	if unranged {
+		kind = "unranged"
+	}
+	switch {
+	case strings.Contains(msg, "NoFIPLeft"), strings.Contains(msg, "no enough"), strings.Contains(msg, "not enough"),
+		strings.Contains(msg, "no available"):
+		return kind + "_no_ip_left"
+	default:
+		var b strings.Builder
+		for _, c := range msg {
+			if b.Len() >= 48 {
+				break
+			}
+			if (c >= 'a' && c <= 'z') || (c >= 'A' && c <= 'Z') || (c >= '0' && c <= '9') {
+				b.WriteRune(c)
+			} else {
+				b.WriteByte('_')
+			}
+		}
+		return kind + "_" + b.String()
+	}
 }
